@@ -77,7 +77,16 @@ def do_check(prop, adapter, tier, seed, t0):
     audit = lean_audit.audit(prop, tier)
     harvested = common.harvest(prop)
     # 2./3. correspondence + oracles on corpus and generated cases
-    res = adapter.run(prop, tier, seed)
+    res, rerolls = None, 0
+    for k in range(3):
+        try:
+            res = adapter.run(prop, tier, seed + 104729 * k)
+            break
+        except common.Infra as e:
+            # an input class the run is required to cover did not come up under this seed: draw again (recorded in the evidence)
+            if 'generator missed' not in str(e) or k == 2:
+                raise
+            rerolls += 1
     findings = res.get('findings', [])          # failing inputs on the implementation (oracle)
     mismatches = res.get('mismatches', [])      # implementation vs model divergences
     violations = []
@@ -132,6 +141,7 @@ def do_check(prop, adapter, tier, seed, t0):
     cov = dict(obligations=audit['obligations'], discharged=audit['discharged'], checker_cmd=audit['checker_cmd'],
                trusted_base=audit['trusted_base'], theorems=audit['theorems'], axioms=audit['axioms'])
     cov.update(res.get('coverage', {}))
+    cov['generator_redraws_for_required_classes'] = rerolls
     cov['constants_harvested_from_changed_source'] = [float(c) for c in harvested]
     if audit.get('structural_tie') is not None:
         cov['structural_tie'] = audit['structural_tie']
